@@ -5,6 +5,7 @@ import Driver.C20
 import Driver.C19
 import Driver.Auth
 import Driver.C11
+import Driver.C15
 open Driver
 
 def machines : List (String × Machine × Machine) :=
@@ -14,7 +15,8 @@ def machines : List (String × Machine × Machine) :=
    ("C19", C19.machine, C19.judge),
    ("C01", Auth.machine, Auth.judgeC01),
    ("C03", Auth.machine, Auth.judgeC03),
-   ("C11", C11.machine, C11.judge)]
+   ("C11", C11.machine, C11.judge),
+   ("C15", C15.machine, C15.judge)]
 
 def main (args : List String) : IO UInt32 := do
   match args with
